@@ -151,6 +151,8 @@ def shared_case(draw):
     from .c12 import ENTRIES as ALL_ENTRIES
 
     case["entries"] = draw(st.lists(st.sampled_from(C.RETRY_ENTRIES + ALL_ENTRIES), min_size=2, max_size=3))
+    if gen.chance(draw, 0.3, "c10-late"):
+        case["cfg"]["budget"]["late"] = True  # handed to the policy objects by attribute assignment after construction
     return case
 
 
